@@ -80,6 +80,13 @@ def leaf_kind(prog, fi):
                     return "asyncio"
                 if r == "ext:trio.from_thread.run":
                     return "trio"
+    # the crossing bound once at construction:  self._submit = partial(asyncio.run_coroutine_threadsafe, loop=...)
+    for o in Interp(prog, fi, inline=own_helpers(fi)).run():
+        for e in o.path.events:
+            if e[0] == "call" and e[1][1] == ("glob", "ext:asyncio.run_coroutine_threadsafe"):
+                return "asyncio"
+            if e[0] == "call" and e[1][1] == ("glob", "ext:trio.from_thread.run"):
+                return "trio"
     return "direct"
 
 
@@ -187,6 +194,17 @@ def identity_and_transparency(chk):
         # ---- O10.2 exception transparency
         ok = True
         own = [(f, n) for f in helper_closure(prog, fi) for n in ast.walk(f.node) if isinstance(n, ast.Raise) and not accepted_own_raise(f, n)]
+
+        def never_taken(f, n):
+            """`if not isinstance(runner, BaseRunner): raise TypeError(...)` whose test the type facts decide: the guard
+            was evaluated on the explored paths and was False, decided (not forked), on every one of them"""
+            up = util.parents_map(f.node).get(id(n))
+            if not isinstance(up, ast.If) or n not in up.body:
+                return False
+            seen = [ev for o in outs for ev in o.path.events if ev[0] == "branch" and ev[3] == up.lineno]
+            return bool(seen) and all(ev[2] is False and ev[4] == "determined" for ev in seen)
+
+        own = [(f, n) for f, n in own if not never_taken(f, n)]
         for _f, n in own:
             chk.bad(
                 "O10.2",
